@@ -5,6 +5,7 @@ import (
 	"go/constant"
 	"go/token"
 	"go/types"
+	"strings"
 
 	"golang.org/x/tools/go/ssa"
 )
@@ -25,6 +26,7 @@ func checkC13(r *Run) {
 	ruleBurstSampler(r, p)
 	ruleLevelSlots(r, p, "LEVEL", "LevelSampler", "Sample", "Sampler", 1, "result")
 	ruleA14(r, p, "A14", map[string]bool{"": true}, []string{"BasicSampler.counter", "BurstSampler.counter", "BurstSampler.resetAt", "@SetGlobalLevel|GlobalLevel", "@DisableSampling|samplingDisabled"})
+	ruleOneEventPerCall(r, p)
 	r.Floor("GATE", 7)
 	r.Floor("SWITCH", 2)
 	r.Floor("BASIC", 4)
@@ -97,6 +99,19 @@ func ruleBasicSampler(r *Run, p *Prog) {
 						}
 					}
 				}
+			}
+			// exactly one atomic operation per call: a second one on the same path (a separate
+			// "reset at the end of the cycle" Store) is not atomic with the fetch-add — increments
+			// landing between the two are wiped and extra events are admitted
+			nAtomic := 0
+			for _, in := range pa.Instrs() {
+				if c, ok := in.(*ssa.Call); ok && isAtomicCall(&c.Call) {
+					nAtomic++
+				}
+			}
+			if good && nAtomic != 1 {
+				good = false
+				why = fmt.Sprintf("%d atomic operations on one path of Sample", nAtomic)
 			}
 			seen["general"] = true
 			if !good {
@@ -332,5 +347,68 @@ func ruleSamplingSwitch(r *Run, p *Prog) {
 			ok = isC && v != *testC
 		}
 		r.Ob("SWITCH", "DisableSampling/path#"+itoa(i), p.Pos(ds.Pos()), ok, true, tern(ok, fmt.Sprintf("DisableSampling(%v) stores %d; samplingDisabled tests == %d", on, v, *testC), "DisableSampling and samplingDisabled disagree on the stored constant"))
+	}
+}
+
+// ruleOneEventPerCall: every entry point that finalises an event itself (package log's Print
+// family, Logger.Print/Printf/Println/Write) creates at most one event per call on every path:
+// creating one consults the sampler, so a probe such as `if !Logger.Debug().Enabled()` followed by
+// the real `Logger.Debug()` spends two sampler decisions (and one pooled event) per call.
+func ruleOneEventPerCall(r *Run, p *Prog) {
+	ev := p.NamedType("", "Event")
+	lg := p.NamedType("", "Logger")
+	if !r.Anchor(ev != nil && lg != nil, "GATE", "Event / Logger types") {
+		return
+	}
+	creates := func(c *ssa.CallCommon) bool {
+		sc := staticCallee(c)
+		if sc == nil || sc.Signature.Recv() == nil || namedOf(sc.Signature.Recv().Type()) != lg {
+			return false
+		}
+		res := sc.Signature.Results()
+		return res.Len() == 1 && isPointer(res.At(0).Type()) && namedOf(res.At(0).Type()) == ev && sc.Object() != nil && sc.Object().Exported()
+	}
+	n := 0
+	for _, f := range p.ModFns {
+		if f.Blocks == nil || f.Parent() != nil || f.Object() == nil || !f.Object().Exported() {
+			continue
+		}
+		inLogPkg := pkgRel(f) == "log"
+		isPrint := pkgRel(f) == "" && f.Signature.Recv() != nil && namedOf(f.Signature.Recv().Type()) == lg && (strings.HasPrefix(f.Name(), "Print") || f.Name() == "Write")
+		if !inLogPkg && !isPrint {
+			continue
+		}
+		// only functions that finalise the event themselves (those returning *Event hand it out)
+		if res := f.Signature.Results(); res.Len() == 1 && namedOf(res.At(0).Type()) == ev {
+			continue
+		}
+		has := false
+		eachInstr(f, func(b *ssa.BasicBlock, i int, in ssa.Instruction) {
+			if cc := callCommon(in); cc != nil && creates(cc) {
+				has = true
+			}
+		})
+		if !has {
+			continue
+		}
+		n++
+		paths, complete := enumPaths(f, 1, 2000)
+		worst := 0
+		for _, pa := range paths {
+			k := 0
+			for _, in := range pa.Instrs() {
+				if cc := callCommon(in); cc != nil && creates(cc) {
+					k++
+				}
+			}
+			if k > worst {
+				worst = k
+			}
+		}
+		okc := complete && worst <= 1
+		r.Ob("GATE", FnName(f)+"/one-event-per-call", p.Pos(f.Pos()), okc, true, tern(okc, "at most one event is created per call", fmt.Sprintf("%s creates %d events on one path: every creation consults the logger's sampler, so one call spends several sampler decisions and the admitted share is no longer the documented one", FnName(f), worst)))
+	}
+	if n < 5 {
+		r.Fail("GATE", "one-event-per-call/floor", "-", fmt.Sprintf("only %d self-finalising entry points found (package log's and Logger's Print family expected)", n))
 	}
 }
